@@ -249,6 +249,20 @@ def build_scenarios(rng, gen, quick):
     # C: the go tool fails
     for p in ("fail:version", "fail:env", "fail:list", "fail:build", "corrupt:build"):
         A(scenario("go-" + p, plan=p))
+    # a go tool that fails LATE / is slow: whatever Invoke does concurrently has time to happen
+    for sub in ("version", "env", "list", "build"):
+        for ms in ((300, 1000) if (not quick or sub in ("version", "env")) else (300,)):
+            A(scenario("go-failafter:%s:%d" % (sub, ms), plan="failafter:%s:%d" % (sub, ms)))
+    for sub in ("version", "env"):
+        A(scenario("go-delay:%s:300" % sub, plan="delay:%s:300" % sub))
+    A(scenario("keep-go-failafter:version:300", plan="failafter:version:300", keep=True))
+    A(scenario("named-go-failafter:env:300", plan="failafter:env:300", layout="named"))
+    if not quick:
+        for sub in ("version", "env", "list"):
+            A(scenario("debug-go-failafter:%s:300" % sub, plan="failafter:%s:300" % sub, debug=True))
+            A(scenario("compile-go-failafter:%s:300" % sub, plan="failafter:%s:300" % sub, compile=True, args=[]))
+            A(scenario("left-prefix:0@go-failafter:%s:300" % sub, plan="failafter:%s:300" % sub,
+                       leftover={"kind": "file", "b64": "", "label": "prefix:0"}, ref="go-failafter:%s:300" % sub))
     for n in range(1, 7):
         A(scenario("go-failnth:%d" % n, plan="failnth:%d" % n))
     for n in range(1, 6):
@@ -459,7 +473,23 @@ def run_env(sc, tools, log, plan=None):
         e["MAGEFILE_HASHFAST"] = "1"
     if sc["fail"]:
         e["VERIF_FAIL"] = sc["fail"]
+    # the fake go tool looks whether the generated file exists while each go command runs
+    d = os.path.join(os.path.dirname(log), "proj")
+    e["VERIF_FAKEGO_WATCH"] = os.path.join(d, "magefiles", MAIN) if sc["layout"] in ("mfdir", "named") else os.path.join(d, MAIN)
     return e
+
+
+def read_seen(log):
+    """per go command of the run: did mage_output_file.go exist when it started or when it ended (as far as the wrapper sees)"""
+    p = log + ".stat"
+    if not os.path.exists(p):
+        return None
+    res = []
+    for l in open(p).read().splitlines():
+        w = l.split()
+        if len(w) >= 3:
+            res.append(w[-2] == "1" or w[-1] == "1")
+    return res
 
 
 def read_log(log):
@@ -521,7 +551,7 @@ def run_scenario(mage, tools, sc, files, workdir):
         if ef == "home-unset-gocache":
             e.update(tools["goenv"])                # the go tool itself keeps working (GOCACHE, GOPATH, GOMODCACHE given)
         p = subprocess.run([mage.bin] + args, cwd=d, env=e, stdin=subprocess.DEVNULL, stdout=subprocess.PIPE, stderr=subprocess.PIPE, timeout=180)
-        ob.update(rc=p.returncode, out=p.stdout.decode("utf-8", "replace"), err=p.stderr.decode("utf-8", "replace"), log=read_log(log),
+        ob.update(rc=p.returncode, out=p.stdout.decode("utf-8", "replace"), err=p.stderr.decode("utf-8", "replace"), log=read_log(log), seen=read_seen(log),
                   after=snap(d), after_h=tree_hash(d))
         return ob
     if sc["crash"]:
@@ -560,7 +590,7 @@ def run_scenario(mage, tools, sc, files, workdir):
                       "after": snap(d), "after_h": tree_hash(d), "exe_cached": False}
         return ob
     r = mage.run(d, args, env=run_env(sc, tools, log), cache=cache)
-    ob.update(rc=r["rc"], out=r["out"], err=r["err"], log=read_log(log), after=snap(d), after_h=tree_hash(d))
+    ob.update(rc=r["rc"], out=r["out"], err=r["err"], log=read_log(log), seen=read_seen(log), after=snap(d), after_h=tree_hash(d))
     if sc.get("out"):
         ob["out_after_h"] = tree_hash(outdir)
     if sc["keep"]:
@@ -590,6 +620,7 @@ def run_enospc(mage, tools, sc, files, workdir):
         return {"skipped": "enospc helper failed (no mount privilege?): " + p.stderr.decode("utf-8", "replace")[-300:]}
     ob = json.loads(p.stdout.decode())
     ob["log"] = read_log(os.path.join(workdir, "go.log"))
+    ob["seen"] = read_seen(os.path.join(workdir, "go.log"))
     ob["exe_cached"] = False
     return ob
 
@@ -691,7 +722,7 @@ def expected_faults(sc, reflog, tcode):
           "dupe-case": ["Parse"], "dupe-import": ["Dupes"], "bad-import": ["GoListDir"], "type-error": ["GoBuild"]}.get(m, [])
     for d in sc["plan"].split(";"):
         p = d.split(":")
-        if p[0] == "fail":
+        if p[0] in ("fail", "failafter"):
             f += {"version": ["GoVersion", "DbgVersion"], "env": ["GoEnvGocache", "DbgEnv"], "list": ["GoListDir", "GoListFiles"], "build": ["GoBuild"]}[p[1]]
         elif p[0] == "failnth":
             st = step_of_log(reflog, sc["compile"])
@@ -745,11 +776,13 @@ def invoke_case(sc, ob, faults, imports, tcode, gen_tok, partial_tok, lists, cra
     if sc["layout"] == "named":      # the directory Invoke is given is the sub-directory
         ob = dict(ob, before=ob["before"]["magefiles"][1], after=ob["after"]["magefiles"][1])
     if crash is None:
-        obs = "{| ob_fs := %s; ob_exit := Some %d; ob_stage := %s; ob_calls := Some %s |}" % (
-            fs_term(ob["after"]), ob["rc"], stage_of(ob), coq_list([CALLS.get(e, "GVersion") for e in ob["log"]]))
+        seen = ob.get("seen")
+        seen_t = "None" if (seen is None or len(seen) != len(ob["log"])) else "(Some %s)" % coq_list([coq_bool(b) for b in seen])
+        obs = "{| ob_fs := %s; ob_exit := Some %d; ob_stage := %s; ob_calls := Some %s; ob_mainseen := %s |}" % (
+            fs_term(ob["after"]), ob["rc"], stage_of(ob), coq_list([CALLS.get(e, "GVersion") for e in ob["log"]]), seen_t)
         cr = "None"
     else:
-        obs = "{| ob_fs := %s; ob_exit := None; ob_stage := SAny; ob_calls := None |}" % fs_term(ob["after"])
+        obs = "{| ob_fs := %s; ob_exit := None; ob_stage := SAny; ob_calls := None; ob_mainseen := None |}" % fs_term(ob["after"])
         cr = "(Some %d)" % crash
     cout = "None"
     if sc.get("out") and sc["out"]["where"] != "abs":
@@ -821,6 +854,13 @@ def oracle_run(sc, ob, gen_hashes, ref_ob):
             bad.append("a failing mage -compile (exit %s) changed files that were there before: %s" % (ob["rc"], diff[:6]))
         else:
             bad.append("the directory was changed: %s" % diff[:6])
+    # the failure points version / env GOCACHE / list lie BEFORE generation: while these go commands run no generated file exists
+    # (judged on what the go-tool wrapper saw, independent of who wins a race)
+    if ob.get("seen") and ob.get("log") and len(ob["seen"]) == len(ob["log"]) and not sc["special"]:
+        first_build = ob["log"].index("build") if "build" in ob["log"] else len(ob["log"])
+        pre = [e for e, s_ in list(zip(ob["log"], ob["seen"]))[:first_build] if s_ and (e in ("env GOCACHE", "list") or (e == "version" and not sc["debug"]))]
+        if pre:
+            bad.append("mage_output_file.go existed while `go %s` was running: generation has started before a step that can still fail without clean-up" % pre[0])
     if ref_ob is not None:
         if ob["rc"] != ref_ob["rc"] or ob["out"] != ref_ob["out"]:
             bad.append("a leftover %s changed the result: exit %s stdout %r instead of exit %s stdout %r" % (
@@ -1383,6 +1423,8 @@ def run(ctx):
     cov["distinct_nontrivial"] = nontriv
     cov["rule"] = ("one case = one run of the real mage binary (or -init/-clean, or the go/build verdict on the generated file) with the directory hashed before and "
                    "after; distinct by scenario; non-trivial = something fails, something is left lying around, a flag changes the life cycle, or the process is killed")
+    watched = [(e, s_) for o in obs.values() if o.get("seen") and o.get("log") and len(o["seen"]) == len(o["log"]) for e, s_ in zip(o["log"], o["seen"])]
+    cov["go_commands_watched"] = {"total": len(watched), "ran_while_generated_file_existed": {k: sum(1 for e, s_ in watched if e == k and s_) for k in sorted(set(e for e, _ in watched))}}
     cov["scenarios"] = len(scs)
     cov["distribution"] = dist
     cov["model_mismatches"] = len(bad_items)
